@@ -584,7 +584,7 @@ def refusal_case(ctx, index, rng: random.Random):
 
     rec = ctx.rec
     rec.mon("C20.artists")
-    kind = rng.choice(["1d_as_map", "2d_as_bar", "unknown_backend", "unknown_kind", "2d_as_hbar", "1d_as_image", "plotly_2d_as_bar", "plotly_1d_as_map", "image_gapped", "image_irregular_tiny"])
+    kind = rng.choice(["1d_as_map", "2d_as_bar", "unknown_backend", "unknown_kind", "2d_as_hbar", "1d_as_image", "plotly_2d_as_bar", "plotly_1d_as_map", "image_gapped", "image_irregular_tiny", "ascii_3d_as_map", "ascii_2d_as_hbar_explicit"])
     h1, _ = make_1d(rng)
     h2 = make_2d(rng)
     raised = False
@@ -621,6 +621,15 @@ def refusal_case(ctx, index, rng: random.Random):
                         _pp_set = None
                         getattr(h1.plot, name)(backend=bname)
             elif kind == "2d_as_hbar":
+                with contextlib.redirect_stdout(io.StringIO()):
+                    h2.plot("hbar", backend="ascii")
+            elif kind == "ascii_3d_as_map":
+                import physt as _p
+
+                h3_ = _p.h3(np.array([[0.5, 0.5, 0.5], [1.5, 0.5, 0.5]]), [np.array([0.0, 1.0, 2.0]), np.array([0.0, 1.0]), np.array([0.0, 1.0, 2.0, 3.0])])
+                with contextlib.redirect_stdout(io.StringIO()):
+                    h3_.plot("map", backend="ascii")
+            elif kind == "ascii_2d_as_hbar_explicit":
                 with contextlib.redirect_stdout(io.StringIO()):
                     h2.plot("hbar", backend="ascii")
             elif kind == "1d_as_image":
@@ -898,7 +907,21 @@ def mpl_other_case(ctx, index, rng: random.Random):
             if kind == "pair_bars":
                 pm.pair_bars(hs[0], hs[1])
             else:
-                hs[0].plot(kind, backend="matplotlib")
+                # the title comes from the histogram's metadata unless overridden - for these plot types as for every other
+                with attach.quiet():
+                    hs[0].title = rng.choice(["Run 7", None, "títle"])
+                    before = [snap.snapshot(h) for h in hs]
+                over = rng.choice([None, None, "given"])
+                ax_ = hs[0].plot(kind, backend="matplotlib", **({"title": over} if over else {}))
+                want_t = over or hs[0].title
+                try:
+                    got_t = ax_.get_title()
+                except Exception:
+                    got_t = None
+                if want_t and got_t is not None and got_t != want_t:
+                    rec.mon("C20.artists")
+                    rec.fail(monitor="C20.artists", op=f"mpl.{kind}", symptom="the plot does not carry the title (the histogram's own, unless one is given)", diff=["title"],
+                             detail={"kind": kind, "got": got_t, "expected": want_t, "given": over})
         except Exception as e:
             rec.fail(monitor="C20.unchanged", op=f"mpl.{kind}", symptom=f"plotting a valid histogram raised {type(e).__name__}", diff=["raised"], detail={"kind": kind, "error": str(e)[:200]})
         finally:
